@@ -79,7 +79,7 @@ def classify(ctx, cases, orders):
     rc, err = ctx.drv("classify", p, out)
     if rc != 0:
         return None
-    res = [l.split()[0] for l in ctx.read_lines(out) if l != "-"]
+    res = [l for l in ctx.read_lines(out) if l != "-"]
     return res if len(res) == len(cases) else None
 
 
@@ -116,8 +116,19 @@ def property_oracle(ctx, ops_path, tag):
     if cls is None:
         ctx.tie_broken("classify", "the Lean driver could not classify the diverging cases")
         return
-    for (c, v), k in zip(todo, cls):
+    for (c, v), line in zip(todo, cls):
+        k = line.split()[0]
         rep = {"stream": "order", "ops": c, "oracle_verdict": v[:4000], "model_explanation": k}
+        # the model must show the SAME two views as the real controller (ordered run and cold start in that order), not just
+        # some divergence
+        mt = dict(t.split("=", 1) for t in line.split()[1:] if "=" in t)
+        ot = dict(t.split("=", 1) for t in v.split()[2:] if "=" in t)
+        if mt.get("ordered") != ot.get("ordered") or mt.get("cold") != ot.get("cold"):
+            rep["model_views"] = {"ordered": mt.get("ordered", "")[:2000], "cold": mt.get("cold", "")[:2000]}
+            ctx.violation("order:divergence-not-reproduced-by-model",
+                          "ordered run and cold start differ on the real controller, and the model's views of the same two runs "
+                          "are not the real controller's", rep, True)
+            continue
         if not k.startswith("cls="):
             ctx.violation("order:divergence-not-reproduced-by-model",
                           "ordered run and cold start differ on the real controller but not in the model", rep, True)
